@@ -152,6 +152,10 @@ finding(
     "P63", ["C01", "C02"], "open", "ReST + word_wrap: a string default with inner blanks that is wrapped inside its quotes ('Defaults to \"hello\\n    wide world\"') comes back with the line break / a doubled blank inside the value (found by the wrap-boundary sweep)",
     witnesses={"C01": [I([["x", {"typ": "str", "doc": "weight re-use that well-known well-known with factor weight well-kn", "default": "hello wide world"}]], cells=[["rest", True, False, True, True]])]},
 )
+finding(
+    "P64", ["C13"], "open", "sync_properties with two pairs in one call: the node copied from the input keeps the INPUT's location; when the second pair's output path equals the first pair's input path (same class/attribute names in both modules) the copied node is rewritten instead of the real target (found by the thorough tier)",
+    witnesses={"C13": [{'isrc': 'from typing import *\n\nclass A(object):\n    a: int = 1\n\n    def a_m(self, a):\n        return 1\n\nclass A00000000(object):\n    a00: int = 1\n\n    def a(self, a):\n        return 1\n\n', 'osrc': 'from typing import *\n\nclass A(object):\n    a: int = 1\n    b: int = 1\n    c: int = 1\n\n    def a_m(self, b, c, *, a):\n        return 1\n\nclass A00000000(object):\n    a00: int = 1\n\n    def a(self, a):\n        return 1\n\n', 'pairs': [[['A00000000.a00', 'attr', ['a00', 'int', '1'], {'idx': 0, 'names': ['a00'], 'hasdef': True, 'first': None}], ['A.b', 'attr', ['b', 'int', '1'], {'idx': 1, 'names': ['a', 'b', 'c'], 'hasdef': True, 'first': None}]], [['A.a', 'attr', ['a', 'int', '1'], {'idx': 0, 'names': ['a'], 'hasdef': True, 'first': None}], ['A00000000.a00', 'attr', ['a00', 'int', '1'], {'idx': 0, 'names': ['a00'], 'hasdef': True, 'first': None}]]], 'eval': False, 'wrap': None, 'multi': True}]},
+)
 finding("P26", ["C07"], "open", "doctrans drops comments inside a rewritten multi-line def header")
 finding("P27", ["C07"], "open", "doctrans turns a one-line `def f(a=1): return a` into invalid Python")
 finding("P28", ["C07"], "open", "doctrans does not recognise a raw docstring r\"\"\"...\"\"\": a second string is inserted")
